@@ -11,7 +11,7 @@ namespace Nstd.Sync.Scen
 
 inductive SOp
   | lock | try_ (skip : Nat) | unlock | signal | wait | twait (ms : Nat) | trywait | set | reset
-  | start (j : Nat) | join (j : Nat)
+  | start (j : Nat) | join (j : Nat) | dtor (j : Nat)
   /-- delete the primitive (only generated where no correct implementation touches it afterwards) -/
   | destroy
 deriving DecidableEq, Repr
@@ -69,7 +69,7 @@ def primCall (p : PrimSt) (t : Tid) (op : SOp) : Option PrimSt :=
 /-- is the op part of the primitive's API (checked when the scenario is parsed) -/
 def opValid (prim : String) (op : SOp) : Bool :=
   match op with
-  | .start _ | .join _ => true
+  | .start _ | .join _ | .dtor _ => true
   | .destroy => prim == "sig"
   | .lock | .try_ _ | .unlock => prim == "mtx" || prim == "mon"
   | .signal | .trywait => prim == "sem"
@@ -134,7 +134,8 @@ def World.alts (w : World) (t : Tid) : List (Nat × Kind) :=
   | .created => [(0, .normal)]
   | .running =>
     if w.thr.pc t != .idle then
-      if (Thr.step w.thr t (.api (.run 0))).isSome then [(0, .normal)] else []
+      -- alternative 1 of a pending pthread_create = the call fails (budgeted; never taken by the default policy)
+      [(0, Kind.normal), (1, Kind.eintr)].filter fun (a, _) => (Thr.step w.thr t (.api (.run a))).isSome
     else
       (List.range (primMaxAlt w.prim)).filterMap fun a =>
         if (primRun w.prim t a).isSome then some (a, primKind w.prim t a) else none
@@ -168,6 +169,14 @@ def advance (fuel : Nat) (w : World) (t : Tid) (evs : List String) : Option (Wor
           else some ({ w with thr := th }, evs)
       | some (.join j) =>
         match Thr.step w.thr t (.api (.call (.join j))) with
+        | none => none
+        | some th =>
+          if th.pc t == .idle then
+            advance fuel { w with thr := th, pos := w.pos.set! t (k + 1) } t
+              (evs ++ [s!"{k}={valStr ((th.ret t).getD .unit)}"])
+          else some ({ w with thr := th }, evs)
+      | some (.dtor j) =>
+        match Thr.step w.thr t (.api (.call (.dtor j))) with
         | none => none
         | some th =>
           if th.pc t == .idle then
